@@ -97,24 +97,15 @@ def focus_at(s, when, position):
 FILL = ListOf(Tup(WIDGET, Int, Dim))
 
 
-@contract(LBX + "ListBox.calculate_visible", property=(), assumed=True,
-          notes="the widgets drawn around the walker's focus at this size: (row offset, focus widget, focus position, focus rows, cursor), "
-                "(trim, [(widget, position, rows)] above, nearest first), (trim, [... below]); reads the walker (get_focus / get_prev / "
-                "get_next) and the widgets' rows() and moves no focus when no focus change is pending (its step 0 completes a pending "
-                "one: the caller here has just cleared it).  ~130 lines with three walker-driven loops building heterogeneous named "
-                "tuples: outside what was brought under contract; the bounded stand-in bounded/C08.py exercises it")
-class lb_calculate_visible:
-    self_shape = LISTBOX
-    params = dict(size=Tup(Int, Int), focus=Bool)
-    result = Tup(Tup(Int, WIDGET, Int, Dim, Opt(Tup(Int, Int))), Tup(Int, FILL), Tup(Int, FILL))
-    modifies = ()
+# ListBox.calculate_visible: verified contract in contracts/C07_listbox.py (it was an assumed contract here until the
+# chain model of the walker was written); its `requires`: no focus change pending, a list that is not empty, `lb_ok`.
 
-    def requires(s, a):
-        # a pending change would be completed (recursively) first; and the list is not empty
-        return both(is_none(s.set_focus_pending), neg(mk_bool(walker_focus(s)[0].isnone)))
 
-    def ensures(old, s, a, result):
-        yield "middle-is-the-walkers-focus", result[0][2] == walker_focus(old)[1]
+def lb_ok(s):
+    """Class invariant of the scroll state (established by __init__ and by every shift_focus): the focus widget sits
+    `offset_rows >= 0` rows below the top, or has the fraction 0 <= inum/iden < 1 of its rows cut off at the top."""
+    inum, iden = s.inset_fraction
+    return both(s.offset_rows >= 0, 0 <= inum, inum < iden)
 
 
 @contract(LBX + "ListBox.update_pref_col_from_focus", property=(), assumed=True,
@@ -200,7 +191,8 @@ class lb_set_focus_complete:
     loops = {0: Loop(invariant=lambda v: True), 1: Loop(invariant=lambda v: True)}
 
     def requires(s, a):
-        return both(a.size[0] >= 0, a.size[1] >= 1, neg(is_none(s.set_focus_pending)))
+        # (size below the bound of the widget protocol, scroll state sane: what calculate_visible asks of its callers)
+        return both(a.size[0] >= 0, a.size[1] >= 1, a.size[0] < DIMMAX, a.size[1] < DIMMAX, lb_ok(s), neg(is_none(s.set_focus_pending)))
 
     def ensures(old, s, a, result):
         yield "pending-change-cleared", is_none(s.set_focus_pending)
